@@ -1,3 +1,4 @@
+import DcmVerif.Props.Source_orient
 import DcmVerif.Proofs.Orient
 /-! Property theorems for C17. Statements only; proofs are by reference to `Proofs/`. -/
 set_option autoImplicit false
